@@ -40,6 +40,29 @@ def mini_eval(node, env):
         return mini_eval(node.body, env) if mini_eval(node.test, env) else mini_eval(node.orelse, env)
     if isinstance(node, ast.Call) and isinstance(node.func, ast.Name) and node.func.id == "bool" and len(node.args) == 1 and not node.keywords:
         return bool(mini_eval(node.args[0], env))
+    if isinstance(node, ast.Call) and not node.keywords:
+        f = norm(node.func)
+        TYPES = {"int": int, "bool": bool, "str": str, "float": float, "tuple": tuple, "list": list, "dict": dict, "bytes": bytes}
+        args = [mini_eval(a, env) for a in node.args] if f != "isinstance" else None
+        if f == "isinstance" and len(node.args) == 2:
+            ts = node.args[1].elts if isinstance(node.args[1], (ast.Tuple, ast.List)) else [node.args[1]]
+            if not all(norm(t) in TYPES for t in ts):
+                raise KeyError("isinstance(.., %s)" % norm(node.args[1]))
+            return isinstance(mini_eval(node.args[0], env), tuple(TYPES[norm(t)] for t in ts))
+        if f in ("tuple.__len__", "len") and len(args) == 1 and isinstance(args[0], (tuple, list, str, dict)):
+            return len(args[0])
+        if f == "tuple.__getitem__" and len(args) == 2 and isinstance(args[0], tuple) and isinstance(args[1], int):
+            return args[0][args[1]]
+        if f in ("int.__index__", "int", "operator.index") and len(args) == 1 and isinstance(args[0], int):
+            return int(args[0])
+        fns = env.get("__fns__", {})
+        if isinstance(node.func, ast.Name) and node.func.id in fns:
+            fn = fns[node.func.id]
+            ps = [a.arg for a in fn.args.args]
+            if len(ps) != len(args) or fn.args.vararg or fn.args.kwarg:
+                raise KeyError("call %s" % f)
+            return _mini_call(fn, dict(zip(ps, args)), env)
+        raise KeyError("call %s" % f)
     if isinstance(node, ast.BoolOp):
         if isinstance(node.op, ast.And):
             r = True
@@ -70,6 +93,8 @@ def mini_eval(node, env):
                 ok = any(left is x or left == x for x in right)
             elif isinstance(op, ast.NotIn):
                 ok = not any(left is x or left == x for x in right)
+            elif isinstance(op, (ast.Lt, ast.LtE, ast.Gt, ast.GtE)) and isinstance(left, int) and isinstance(right, int):
+                ok = {ast.Lt: left < right, ast.LtE: left <= right, ast.Gt: left > right, ast.GtE: left >= right}[type(op)]
             else:
                 raise KeyError(type(op).__name__)
             if not ok:
@@ -77,6 +102,38 @@ def mini_eval(node, env):
             left = right
         return True
     raise KeyError(type(node).__name__)
+
+
+class _Ret(Exception):
+    def __init__(self, v):
+        self.v = v
+
+
+def _mini_call(fn, local, env, depth=0):
+    """table evaluation of a small module-level helper (if / assign / return over the constructs of mini_eval) on one row"""
+    if depth > 4:
+        raise KeyError("recursion")
+    e2 = {"None": None, "__fns__": env.get("__fns__", {})}
+    e2.update(local)
+
+    def run(stmts):
+        for s in stmts:
+            if isinstance(s, ast.Expr) and isinstance(s.value, ast.Constant):
+                continue
+            if isinstance(s, ast.Return):
+                raise _Ret(mini_eval(s.value, e2) if s.value is not None else None)
+            if isinstance(s, ast.Assign) and len(s.targets) == 1 and isinstance(s.targets[0], ast.Name):
+                e2[s.targets[0].id] = mini_eval(s.value, e2)
+                continue
+            if isinstance(s, ast.If):
+                run(s.body if mini_eval(s.test, e2) else s.orelse)
+                continue
+            raise KeyError("statement %s" % type(s).__name__)
+    try:
+        run(fn.body)
+    except _Ret as r:
+        return r.v
+    return None
 
 
 MODES = [
@@ -268,7 +325,8 @@ def check(repo, rep, tier):
         # (falsy non-zero objects such as '' or [] included: CPython prints them and exits with status 1)
         for ec_label, ec in (("None", None), ("0", 0), ("3", 3), ("'msg'", "msg"), ("object", o), ("''", ""), ("[]", [])):
             for ex_label, ex in (("None", None), ("raised", RuntimeError("x"))):
-                env = {"%s.%s" % (inst, ec_attr): ec, "%s.%s" % (inst, ex_attr): ex, "None": None}
+                env = {"%s.%s" % (inst, ec_attr): ec, "%s.%s" % (inst, ex_attr): ex, "None": None,
+                       "__fns__": {s_.name: s_ for s_ in am.tree.body if isinstance(s_, ast.FunctionDef)}}
                 runs = False
                 try:
                     for p_ in paths:
@@ -390,6 +448,35 @@ def check(repo, rep, tier):
             else:
                 r5.ok(final.loc(pc), final.fq, "if autoprove: backend.prove()", "runs exactly when automatic proving is on")
 
+    # ---------------- R-C18-6  what the hooks recorded is never forgotten
+    r6 = rep.rule("R-C18-6", "the recorded exit code / exception is written by the interposed hooks only (never reset)", floor=2)
+    rec_fields = {v[0] for v in recorded.values()}
+    hook_meths = {meth for _saved, meth in hooks.values()}
+    for m_ in repo.modules.values():
+        for fi_ in m_.functions.values():
+            if isinstance(fi_.node, ast.Lambda):
+                continue
+            for n_ in ast.walk(fi_.node):
+                tg_ = n_.targets if isinstance(n_, ast.Assign) else ([n_.target] if isinstance(n_, (ast.AugAssign, ast.AnnAssign)) else (
+                    n_.targets if isinstance(n_, ast.Delete) else []))
+                own_ = [p for p in parents(n_) if isinstance(p, (ast.FunctionDef, ast.Lambda))]
+                if not tg_ or (own_ and own_[0] is not fi_.node):
+                    continue
+                for t_ in tg_:
+                    for e_ in (t_.elts if isinstance(t_, (ast.Tuple, ast.List)) else [t_]):
+                        if not (isinstance(e_, ast.Attribute) and e_.attr in rec_fields):
+                            continue
+                        if m_.name != AM and not (isinstance(e_.value, ast.Name) and e_.value.id == "override"):
+                            continue          # some other object's field of the same name
+                        in_init = fi_.cls is eo and fi_.name == "__init__"
+                        in_hook = fi_.cls is eo and fi_.name in hook_meths
+                        if in_init or in_hook:
+                            r6.ok(fi_.loc(n_), fi_.fq, norm(n_)[:80], "initialisation" if in_init else "recorded by the interposed hook")
+                        else:
+                            r6.violation(fi_.loc(n_), fi_.fq, norm(n_)[:80], "the recorded %s is overwritten outside the interposed hooks: a "
+                                         "failing exit status recorded earlier is forgotten, and the proving step then runs for a run "
+                                         "that ends with that status (SystemExit can still be propagating through finally / except-raise "
+                                         "/ __exit__ blocks that run more code)" % e_.attr, "reset/%s/%s" % (fi_.qual, e_.attr))
     # ---------------- R-C18-4
     r4 = rep.rule("R-C18-4", "every failing termination mode fires an interposed hook (model table)", floor=9)
     rep.extra["termination_modes"] = [{"mode": m_, "hook": h, "failing": f} for m_, h, f in MODES]
